@@ -5,12 +5,15 @@ set -e
 cd "$(dirname "$0")"
 export CARGO_NET_OFFLINE=true
 mkdir -p .build evidence replays
-(cd coq && coq_makefile -f _CoqProject -o Makefile >/dev/null && timeout 3000 make -j16 >/dev/null)
+python3 -c "import sys; sys.path.insert(0,'.'); from vlib import common as C; C.coq_makefile()"
+(cd coq && timeout 3000 make -j16 >/dev/null)
 python3 - <<'PY'
 import sys
 sys.path.insert(0, '.')
 from vlib import common as C
-C.build_model()
+import glob, os
+for f in sorted(glob.glob('ocaml/eng_*.ml')):
+    C.build_model(os.path.basename(f)[4:-3])
 for crate in C.CRATES:
     exe, err = C.build_harness(crate)
     if exe is None:
